@@ -54,11 +54,17 @@ func C02(run *mon.Run) {
 			if si < 24 {
 				n = 1 + si%6
 			}
+			if si%37 == 36 {
+				n = []int{15, 16, 17, 24, 33, 40}[(si/37)%6] // more than one Miller-loop batch of pairings
+			}
 			if !run.Quick() && si%500 == 499 {
 				n = 300
 			}
 			nk := 1 + r.IntN(n)
 			nm := 1 + r.IntN(n)
+			if si%37 == 36 {
+				nk, nm = n, n-si%2 // (almost) all distinct: min(#keys, #hashes)+1 pairings
+			}
 			switch special {
 			case "tie":
 				nm = nk
